@@ -641,6 +641,15 @@ func (b *builder) branch(p *Plan, path string, br *Branch, idx int) *compose.Gra
 	for _, t := range br.Targets {
 		ends[t] = true
 	}
+	// failNow: the condition of a failing branch returns an error at its FailAt-th evaluation
+	failNow := func(ctx context.Context) error {
+		if br.FailEval > 0 && e.branchEval[tagOf(ctx)+"|"+id] == br.FailEval-1 {
+			e.branchEval[tagOf(ctx)+"|"+id]++
+			e.Faults["branch_condition_error"]++
+			return &InjErr{Path: "branch:" + id, Idx: br.FailEval - 1}
+		}
+		return nil
+	}
 	pick := func(ctx context.Context) map[string]bool {
 		k := tagOf(ctx) + "|" + id
 		c := e.branchEval[k]
@@ -671,20 +680,32 @@ func (b *builder) branch(p *Plan, path string, br *Branch, idx int) *compose.Gra
 		if br.Multi {
 			return compose.NewStreamGraphMultiBranch(func(ctx context.Context, sr *schema.StreamReader[M]) (map[string]bool, error) {
 				readPrefix(sr)
+				if err := failNow(ctx); err != nil {
+					return nil, err
+				}
 				return pick(ctx), nil
 			}, ends)
 		}
 		return compose.NewStreamGraphBranch(func(ctx context.Context, sr *schema.StreamReader[M]) (string, error) {
 			readPrefix(sr)
+			if err := failNow(ctx); err != nil {
+				return "", err
+			}
 			return first(pick(ctx)), nil
 		}, ends)
 	}
 	if br.Multi {
 		return compose.NewGraphMultiBranch(func(ctx context.Context, in M) (map[string]bool, error) {
+			if err := failNow(ctx); err != nil {
+				return nil, err
+			}
 			return pick(ctx), nil
 		}, ends)
 	}
 	return compose.NewGraphBranch(func(ctx context.Context, in M) (string, error) {
+		if err := failNow(ctx); err != nil {
+			return "", err
+		}
 		return first(pick(ctx)), nil
 	}, ends)
 }
